@@ -844,7 +844,10 @@ static int parse_data(vnacal_load_state_t *vlsp, const vnacal_layout_t *vlp,
 	    yaml_node_t *key, *value;
 	    char prefix[5];
 #define PREFIX(c1, c2, c3, c4) \
-	((c1) | ((c2) << 8) | ((c3) << 16) | ((c4) << 24))
+	((uint32_t)(unsigned char)(c1) | \
+	 ((uint32_t)(unsigned char)(c2) << 8) | \
+	 ((uint32_t)(unsigned char)(c3) << 16) | \
+	 ((uint32_t)(unsigned char)(c4) << 24))
 
 	    /*
 	     * Get key and value nodes.
